@@ -21,6 +21,7 @@ import (
 	stakingtypes "github.com/cosmos/cosmos-sdk/x/staking/types"
 	transfertypes "github.com/cosmos/ibc-go/v7/modules/apps/transfer/types"
 	"github.com/ethereum/go-ethereum/common"
+	"github.com/ethereum/go-ethereum/crypto"
 
 	coinomicstypes "github.com/haqq-network/haqq/x/coinomics/types"
 	evmtypes "github.com/haqq-network/haqq/x/evm/types"
@@ -418,6 +419,8 @@ func Worker(shard, n int, tier string) *engine.Result {
 	}
 	revisitWorker(f, res, tier, shard, n)
 	SdWorker(f, res, tier, shard, n)
+	CreateWorker(f, res, tier, shard, n)
+	WarmthWorker(f, res, shard, n)
 	return res
 }
 
@@ -452,6 +455,12 @@ func paramChildCode() []byte {
 	a.PushU(1).Op(evmasm.CALLDATALOAD).PushU(248).Op(evmasm.SHR)
 	a.PushU(0).Op(evmasm.CALLDATALOAD).PushU(248).Op(evmasm.SHR)
 	a.Op(evmasm.SSTORE)
+	// byte3: call a stateful precompile (a bank query: it flushes the pending EVM state on entry)
+	a.PushU(3).Op(evmasm.CALLDATALOAD).PushU(248).Op(evmasm.SHR).Op(evmasm.ISZERO).PushLabel("nopc").Op(evmasm.JUMPI)
+	sel := a.Data([]byte{0x18, 0x16, 0x0d, 0xdd}) // totalSupply()
+	n := a.CopyDataToMem(sel, 0)
+	a.Call(evmasm.STATICCALL, 0, precomp.BankAddr, nil, 0, uint64(n), 0, 0).Op(evmasm.POP)
+	a.Label("nopc")
 	a.PushU(2).Op(evmasm.CALLDATALOAD).PushU(248).Op(evmasm.SHR)
 	a.PushLabel("rev").Op(evmasm.JUMPI)
 	a.Stop()
@@ -464,12 +473,16 @@ type pcall struct {
 	slot, val byte
 	revert    bool
 	value     int64
+	pc        bool // the invocation calls a stateful precompile after its store
 }
 
 func (c pcall) String() string {
 	e := "ok"
 	if c.revert {
 		e = "revert"
+	}
+	if c.pc {
+		e += ",after-precompile"
 	}
 	return fmt.Sprintf("P(slot%d=%d,$%d,%s)", c.slot, c.val, c.value, e)
 }
@@ -483,7 +496,11 @@ func revisitWorker(f *Fixture, res *engine.Result, tier string, shard, n int) {
 		for _, val := range []byte{0, 7, 9} {
 			for _, rv := range []bool{false, true} {
 				for _, v := range []int64{0, 3} {
-					opts = append(opts, pcall{slot, val, rv, v})
+					opts = append(opts, pcall{slot, val, rv, v, false})
+				}
+				if rv {
+					// the reverting invocation first lets a stateful precompile flush the pending state
+					opts = append(opts, pcall{slot, val, rv, 0, true})
 				}
 			}
 		}
@@ -505,7 +522,11 @@ func revisitWorker(f *Fixture, res *engine.Result, tier string, shard, n int) {
 					if c.revert {
 						flag = 1
 					}
-					d := a.Data([]byte{c.slot, c.val, flag})
+					pcf := byte(0)
+					if c.pc {
+						pcf = 1
+					}
+					d := a.Data([]byte{c.slot, c.val, flag, pcf})
 					ln := a.CopyDataToMem(d, 0)
 					a.Call(evmasm.CALL, 500000, pAddr, big.NewInt(c.value), 0, uint64(ln), 0, 0).Op(evmasm.POP)
 				}
@@ -513,9 +534,13 @@ func revisitWorker(f *Fixture, res *engine.Result, tier string, shard, n int) {
 				var names []string
 				want := map[uint64]uint64{1: 5} // slot 1 holds a committed non-zero value before the transaction
 				wantBal := int64(0)
+				effective := false // a surviving invocation really changes the contract (so it is written at the end)
 				for _, c := range cur {
 					names = append(names, c.String())
 					if !c.revert {
+						if c.value > 0 || want[uint64(c.slot)] != uint64(c.val) {
+							effective = true
+						}
 						want[uint64(c.slot)] = uint64(c.val)
 						wantBal += c.value
 					}
@@ -551,7 +576,22 @@ func revisitWorker(f *Fixture, res *engine.Result, tier string, shard, n int) {
 					if !supply.Equal(preSupply) {
 						leak = "supply"
 					}
-					res.AddViolation(engine.Violation{Signature: "C05|leaf=none|revertpos=revisited-frame|leak=" + leak,
+					// whether a precompile flushed a reverting invocation's store, and whether another
+					// invocation of the contract survives (the contract is then written at the end anyway)
+					leaf, survivor := "none", "no"
+					for _, c := range cur {
+						if c.pc {
+							leaf = "bank.query:staticcall"
+						}
+					}
+					if effective {
+						survivor = "yes"
+					}
+					sig := "C05|leaf=" + leaf + "|revertpos=revisited-frame|leak=" + leak
+					if leaf != "none" {
+						sig += "|survivor=" + survivor
+					}
+					res.AddViolation(engine.Violation{Signature: sig,
 						What: "a contract re-entered after one of its invocations reverted ends with storage / balance that the surviving calls do not explain", Path: p,
 						Detail: map[string]any{"code": r.Code, "slot1": got1, "slot2": got2, "want": fmt.Sprint(want), "balP": balP, "wantBalP": wantBal, "balR": balR}})
 				}
@@ -723,4 +763,184 @@ func SdWorker(f *Fixture, res *engine.Result, tier string, shard, n int) {
 		}
 	}
 	rec(nil)
+}
+
+// ---- creation family ---------------------------------------------------------------------------
+//
+// A factory makes one CREATE2 whose target address may already hold coins (funded by an earlier
+// transaction and / or by the factory just before), with or without an endowment; the init code
+// returns code, returns nothing, reverts, or self-destructs to a third party / to itself; afterwards
+// the factory may send coins to the address again.  All 80 combinations are checked against a
+// model (classic CREATE2 / SELFDESTRUCT semantics): balances of factory, target and beneficiary,
+// existence of code at the target, and the supply (which may only fall by what a destroyed account
+// still held).  This covers failed and self-destructing deployments onto funded addresses.
+
+// CreateWorker runs the creation family (also used by C02 for its supply oracle).
+func CreateWorker(f *Fixture, res *engine.Result, tier string, shard, n int) {
+	w := f.W
+	fAddr := world.ContractAddr(0x28)
+	ben := world.ContractAddr(0x29)
+	salt := common.Hash{31: 7}
+	inits := []struct {
+		name string
+		code func(self common.Address) []byte
+	}{
+		{"returns-code", func(common.Address) []byte { // RETURN(31,1) of a zero byte: runtime code 0x00 (STOP)
+			return evmasm.New().PushU(1).PushU(31).Op(evmasm.RETURN).Bytes()
+		}},
+		{"returns-nothing", func(common.Address) []byte { return evmasm.New().Stop().Bytes() }},
+		{"reverts", func(common.Address) []byte { return evmasm.New().Revert().Bytes() }},
+		{"selfdestructs(third)", func(common.Address) []byte { return evmasm.New().PushAddr(ben).Op(evmasm.SELFDESTRUCT).Bytes() }},
+		{"selfdestructs(self)", func(common.Address) []byte { return evmasm.New().Op(evmasm.ADDRESS).Op(evmasm.SELFDESTRUCT).Bytes() }},
+	}
+	idx := 0
+	for _, prefund := range []int64{0, 70} {
+		for _, pre := range []int64{0, 3} {
+			for _, in := range inits {
+				for _, endow := range []int64{0, 5} {
+					for _, post := range []int64{0, 4} {
+						idx++
+						if idx%n != shard {
+							continue
+						}
+						init := in.code(common.Address{})
+						x := crypto.CreateAddress2(fAddr, salt, crypto.Keccak256(init))
+						// factory program
+						a := evmasm.New()
+						if pre > 0 {
+							a.Call(evmasm.CALL, 0, x, big.NewInt(pre), 0, 0, 0, 0).Op(evmasm.POP)
+						}
+						d := a.Data(init)
+						ln := a.CopyDataToMem(d, 0)
+						// CREATE2(value, offset, size, salt)
+						a.PushBytes(salt.Bytes()).PushU(uint64(ln)).PushU(0).PushU(uint64(endow)).Op(0xf5).Op(evmasm.POP)
+						if post > 0 {
+							a.Call(evmasm.CALL, 0, x, big.NewInt(post), 0, 0, 0, 0).Op(evmasm.POP)
+						}
+						a.Stop()
+						// the model
+						balF, balX, balB, burned := int64(20), prefund, int64(0), int64(0)
+						balX += pre
+						balF -= pre
+						hasCode, destroyed := false, false
+						switch in.name {
+						case "returns-code":
+							balX += endow
+							balF -= endow
+							hasCode = true
+						case "returns-nothing":
+							balX += endow
+							balF -= endow
+						case "reverts":
+						case "selfdestructs(third)":
+							balF -= endow
+							balB += balX + endow
+							balX = 0
+							destroyed = true
+						case "selfdestructs(self)":
+							balF -= endow
+							burned += balX + endow
+							balX = 0
+							destroyed = true
+						}
+						balX += post
+						balF -= post
+						if destroyed {
+							burned += balX // what arrives after the self-destruct disappears with the account
+							balX = 0
+						}
+						p := []string{fmt.Sprintf("CREATE2{prefund=%d pre-send=%d init=%s endowment=%d post-send=%d}", prefund, pre, in.name, endow, post)}
+						restore := w.Branch()
+						ctx := w.App.BaseApp.VerifDeliverCtx()
+						if prefund > 0 {
+							if err := w.App.BankKeeper.SendCoins(ctx, w.Addrs[f.S], sdk.AccAddress(x.Bytes()), sdk.NewCoins(sdk.NewInt64Coin(world.Denom, prefund))); err != nil {
+								panic(err)
+							}
+						}
+						w.InstallContract(ctx, fAddr, a.Bytes(), nil)
+						nonce := w.App.AccountKeeper.GetAccount(ctx, w.Addrs[f.S]).GetSequence()
+						bz, _ := world.WrapEth(w.SignEth(w.Keys[f.S], world.EthSpec{Nonce: nonce, Gas: 5000000, To: &fAddr, Value: big.NewInt(20), GasPrice: big.NewInt(0)}))
+						preSupply := w.App.BankKeeper.GetSupply(ctx, world.Denom).Amount
+						r := w.Deliver(bz)
+						ctx = w.Ctx()
+						bal := func(ad common.Address) int64 {
+							return w.App.BankKeeper.GetBalance(ctx, sdk.AccAddress(ad.Bytes()), world.Denom).Amount.Int64()
+						}
+						codeLen := len(w.App.EvmKeeper.GetCode(ctx, common.BytesToHash(w.App.EvmKeeper.GetAccountOrEmpty(ctx, x).CodeHash)))
+						gF, gX, gB := bal(fAddr), bal(x), bal(ben)
+						supplyDelta := w.App.BankKeeper.GetSupply(ctx, world.Denom).Amount.Sub(preSupply).Int64()
+						restore()
+						res.Transitions++
+						res.Evaluations++
+						res.States[p[0]] = 0
+						res.Outcomes["create-family"]++
+						if in.name == "reverts" || destroyed {
+							res.Nontrivial[p[0]] = true
+						}
+						if r.Code != 0 || gF != balF || gX != balX || gB != balB || (codeLen > 0) != hasCode || supplyDelta != -burned {
+							leak := "evm"
+							if supplyDelta != -burned {
+								leak = "supply"
+							}
+							res.AddViolation(engine.Violation{Signature: "C05|leaf=none|revertpos=create-family|leak=" + leak,
+								What: "after a CREATE2 onto a (possibly funded) address the balances, the code or the supply are not what the deployment's outcome explains", Path: p,
+								Detail: map[string]any{"code": r.Code, "balFactory": gF, "wantFactory": balF, "balTarget": gX, "wantTarget": balX, "balBeneficiary": gB, "wantBeneficiary": balB,
+									"has_code": codeLen > 0, "want_code": hasCode, "supply_delta": supplyDelta, "want_supply_delta": -burned}})
+						}
+					}
+				}
+			}
+		}
+	}
+}
+
+// ---- warmth differential -------------------------------------------------------------------------
+//
+// What a reverted frame did to the EIP-2929 access list must be undone, and nothing more: the callee
+// of a CALL is warmed by the caller's frame, so after the call the price of touching it again must
+// not depend on whether the callee reverted.  The root calls the parametric child (whose store is
+// the first slot access on its account), catches the outcome, then measures the gas of BALANCE(child)
+// with the GAS opcode and stores it; the stored figure must be the same for a child that stopped and
+// for one that reverted (and for one that reverted after a precompile call).
+func WarmthWorker(f *Fixture, res *engine.Result, shard, n int) {
+	if shard != 0 {
+		return
+	}
+	w := f.W
+	pAddr, rAddr := world.ContractAddr(0x2a), world.ContractAddr(0x2b)
+	measure := func(flag, pc byte) (uint64, uint32) {
+		a := evmasm.New()
+		d := a.Data([]byte{2, 9, flag, pc})
+		ln := a.CopyDataToMem(d, 0)
+		a.Call(evmasm.CALL, 500000, pAddr, big.NewInt(0), 0, uint64(ln), 0, 0).Op(evmasm.POP)
+		a.Op(evmasm.GAS).PushAddr(pAddr).Op(evmasm.BALANCE).Op(evmasm.POP).Op(evmasm.GAS).Op(evmasm.SWAP1).Op(evmasm.SUB).SStoreTop(5)
+		a.Stop()
+		restore := w.Branch()
+		defer restore()
+		ctx := w.App.BaseApp.VerifDeliverCtx()
+		w.InstallContract(ctx, pAddr, paramChildCode(), map[uint64]uint64{1: 5})
+		w.InstallContract(ctx, rAddr, a.Bytes(), nil)
+		nonce := w.App.AccountKeeper.GetAccount(ctx, w.Addrs[f.S]).GetSequence()
+		bz, _ := world.WrapEth(w.SignEth(w.Keys[f.S], world.EthSpec{Nonce: nonce, Gas: 5000000, To: &rAddr, GasPrice: big.NewInt(0)}))
+		r := w.Deliver(bz)
+		return w.Slot(w.Ctx(), rAddr, 5).Uint64(), r.Code
+	}
+	base, code := measure(0, 0)
+	res.Transitions++
+	for _, v := range []struct {
+		name     string
+		flag, pc byte
+	}{{"child reverts", 1, 0}, {"child reverts after a precompile call", 1, 1}} {
+		got, c2 := measure(v.flag, v.pc)
+		res.Transitions++
+		res.Evaluations++
+		res.States["warmth|"+v.name] = 0
+		res.Nontrivial["warmth|"+v.name] = true
+		res.Outcomes["warmth-differential"]++
+		if got != base || code != 0 || c2 != 0 || base == 0 {
+			res.AddViolation(engine.Violation{Signature: "C05|leaf=none|revertpos=warmth|leak=gas",
+				What: "touching the callee again costs a different amount of gas after it reverted than after it stopped: the revert changed the access list beyond undoing the frame's own additions",
+				Path: []string{"R{call P; measure BALANCE(P)}: " + v.name}, Detail: map[string]any{"gas_after_stop": base, "gas_after_revert": got, "codes": fmt.Sprint(code, c2)}})
+		}
+	}
 }
